@@ -515,6 +515,38 @@ pub fn c10(cx: &mut Ctx) {
             }
         }
     }
+    // a caller that keeps presenting what has arrived so far to try_read_100 after the refusal was recognised
+    // (the head trickling in, the whole of it re-offered on every socket read), 2 … 9 times
+    for (head, body) in [("HTTP/1.1 403 Forbidden\r\nContent-Length: 2\r\nX-A: 1\r\nX-B: 2\r\n\r\n", "no"), ("HTTP/1.1 403\r\n\r\n", ""), ("HTTP/1.0 417 E\r\nConnection: close\r\n\r\n", "bye")] {
+        for reqv in ["HTTP/1.0", "HTTP/1.1"] {
+            for creq in [false, true] {
+                for times in [2usize, 5, 6, 9] {
+                    cx.case("again100");
+                    let mut hs: Vec<(&str, &[u8])> = vec![("content-length", b"5"), ("expect", b"100-continue")];
+                    if creq { hs.insert(0, ("connection", b"close")); }
+                    cx.rec.new_flow(&format!("POST {} http://a.test/p {}", reqv, super::hdrs(&hs)));
+                    cx.op("proceed"); cx.op("write 4096"); cx.op("proceed");
+                    if cx.rec.state() != "await100" { continue; }
+                    let hb = head.as_bytes();
+                    for i in 0..times {
+                        // growing prefixes from the first complete line on, then the whole head repeatedly
+                        let upto = (hb.len() * (i + 2) / (times + 1)).max(hb.iter().position(|&b| b == b'\n').unwrap() + 3).min(hb.len());
+                        cx.op(&format!("read100 {}", hx(&hb[..upto])));
+                        cx.op("keep100");
+                    }
+                    cx.op("proceed");
+                    if cx.rec.state() == "sendBody" { cx.op("bwrite 68656c6c6f 100"); cx.op("proceed"); }
+                    if cx.rec.state() != "recvResponse" { continue; }
+                    let mut stream = hb.to_vec(); stream.extend_from_slice(body.as_bytes());
+                    let res = cx.op(&format!("resp {}", hx(&stream)));
+                    let used: usize = res.split(' ').nth(1).and_then(|v| v.parse().ok()).unwrap_or(0);
+                    cx.op("proceed");
+                    if cx.rec.state() == "recvBody" { cx.op(&format!("bread {} 100", hx(&stream[used.min(stream.len())..]))); cx.op("proceed"); }
+                    cx.op("close?"); cx.op("reason");
+                }
+            }
+        }
+    }
     // the shortest answers a server can give while the client awaits 100 (status line without reason phrase, no
     // fields, bare-LF line ends), to requests that announce a body of 5 bytes, of 0 bytes, or a chunked one
     for answer in ["HTTP/1.1 204\r\n\r\n", "HTTP/1.1 304\r\n\r\n", "HTTP/1.1 301\r\n\r\n", "HTTP/1.1 101\r\n\r\n", "HTTP/1.1 204 \r\n\r\n", "HTTP/1.1 403\r\nContent-Length: 0\r\n\r\n",
@@ -772,6 +804,33 @@ pub fn c12(cx: &mut Ctx) {
             }
             if sched < 2 { cx.op("canproceed"); cx.op("proceed"); } else { cx.op("cended"); }
         }
+    }
+    // (6d) a field name longer than the http crate takes (65 535 bytes), in a head that is finished, and in one
+    // whose blank line has not arrived yet (the partial parser looks at it then): both APIs and the parsers
+    for nlen in [65535usize, 65536, 70000] {
+        for st in ["200 OK", "302 Found"] {
+            let long = format!("HTTP/1.1 {}\r\n{}: x\r\nLocation: /n\r\nContent-Length: 0\r\n", st, "a".repeat(nlen));
+            let whole = format!("{}\r\n", long);
+            let cut = &long[..long.find(": x\r\n").unwrap() + 5];
+            for (k, w) in [whole.as_str(), long.as_str(), cut].iter().enumerate() {
+                let _ = k;
+                cx.case("longname");
+                if super::head::to_recv_response_any(cx, "GET") { cx.op(&format!("resp {}", hx(w.as_bytes()))); cx.op(&format!("resp {}", hx(w.as_bytes()))); cx.op("canproceed"); }
+                cx.case("longname");
+                if cx.rec.new_call("nobody", "GET HTTP/1.1 http://a.test/p 0") == "ok" {
+                    cx.op("cwrite 4096"); cx.op("cinto");
+                    cx.op(&format!("cresp {}", hx(w.as_bytes())));
+                }
+                cx.case("longname");
+                cx.op(&format!("parse-resp 128 {}", hx(w.as_bytes())));
+                cx.op(&format!("parse-partial 128 {}", hx(w.as_bytes())));
+                cx.op(&format!("parse-partial 1 {}", hx(w.as_bytes())));
+            }
+        }
+        let req = format!("GET /p HTTP/1.1\r\n{}: x\r\nHost: a\r\n", "b".repeat(nlen));
+        cx.case("longname");
+        cx.op(&format!("parse-req 128 {}", hx(req.as_bytes())));
+        cx.op(&format!("parse-req 128 {}", hx(format!("{}\r\n", req).as_bytes())));
     }
     // (6c) trailer fields named like framing fields, and reads that go on after a read failed (whatever they
     // return, they return)
